@@ -14,7 +14,7 @@ PROP = 'C12'
 LEVEL = 'exploration'
 RULE = ('all 8^k (k=1..4) operand tuples for NOT/AND/OR/XOR in array (mv_*, _mv_*) and bit-parallel (bp8v_*) form, all 4^k '
         'for bp4v_*; every tuple additionally placed in each lane 0..8 of a 9-lane array beside a second tuple; shapes '
-        '(n,),(s,n),(b,s,n) and broadcasting pairs; out= omitted/fresh/garbage/aliased; distinct_nontrivial = distinct '
+        '(n,),(s,n),(b,s,n) and broadcasting pairs; out= omitted/fresh/garbage/aliased, bit-parallel out arrays pre-filled 00/FF/5A/A5; 4-valued operators also on three-plane operands (third plane 00/FF/A5/5A) and chained behind every other operator; distinct_nontrivial = distinct '
         '(operator, form, operand tuple, result) signatures')
 ASSUMPTIONS = ['reference algebra in mc/ref.py written from the module documentation',
                'results are compared with the reference after identifying X and - (both "unknown"); array vs. bit-parallel forms are compared exactly',
